@@ -13,7 +13,7 @@ from .ref_scheme import Strategy, OutOfModel
 
 PID = "C18"
 LEVEL = "exploration"
-ALPHA = list("()\"\\;#|a \n")
+ALPHA = list("()\"\\;#|a \n\r")
 BANNER_PREFIX = "Ruschm Version "
 FAREWELL = "exited. have a nice day.\n"
 
@@ -44,7 +44,9 @@ STRESS_FORMS = ["(display \"(\")", "(display \")\")", "(display \"((\")", "#\\("
                 "(display '|two\n\nlines|)", "(display \"tab\there \\\" quote (\")",
                 # tokens that span lines at the top level of a submission, and lines inside such tokens that look like comments or like nothing
                 "'|a\nb|", "(define |x\ny| 5)", "|x\ny|", "'|sym\n;x\nend|", "(display \"a\n; b\nc\")", "\"line1\n  ;; not a comment\nline3\"", "\"\n;\n\"", "'|\n|",
-                "(display \"x\n#| not a block comment\n|# y\")", "(list \"a\n)\" '|b\n(| 1)"]
+                "(display \"x\n#| not a block comment\n|# y\")", "(list \"a\n)\" '|b\n(| 1)",
+                # comments that end at a bare carriage return
+                "(+ 1 ; one\r 2)", "(display 1) ; then\r(display\n 2)", "(list 1 ;) \r 2)"]
 
 
 def split_form(rng, text):
